@@ -30,6 +30,10 @@ def main(batch_path, cfg_path, out_path):
         try:
             r = rewrite.run(case, seed=cfg["uuid_seed"],
                             register_order=order)
+            if r.exception is None and case.get("second_rewrite"):
+                # the rewritten module is rewritten once more by a new
+                # context (patch numbering starts again): same labels again
+                second_rewrite(case, r.bu)
             if r.exception is not None:
                 res["exc"] = type(r.exception).__name__
             else:
@@ -47,6 +51,41 @@ def main(batch_path, cfg_path, out_path):
             res["exc"] = "harness:" + type(exc).__name__ + ":" + str(exc)[:100]
         out.append(res)
     json.dump(out, open(out_path, "w"))
+
+
+def second_rewrite(case, bu):
+    """insert, with a fresh RewritingContext, a patch that defines the same
+    temporary labels as the first rewrite's patches, at the start of the
+    code block that the alphabetically first code symbol names"""
+    import gtirb
+    import gtirb_functions
+    from gtirb_rewriting import RewritingContext
+    from . import rewrite, vocab
+    m = bu.module
+    syms = sorted((s for s in m.symbols
+                   if isinstance(s.referent, gtirb.CodeBlock)
+                   and s.referent.size and not s.at_end),
+                  key=lambda s: s.name)
+    if not syms:
+        return
+    isa = case["isa"]
+    names = sorted({ln["l"] for e in case["edits"]
+                    for ln in e.get("p", {}).get("lines", [])
+                    if ln.get("temp") and "l" in ln})[:3] or [".Lpt0_a"]
+    lines = []
+    for nme in names:
+        lines += [{"l": nme}, {"k": "nop"}]
+    if "jne" in vocab.VOCAB[isa]:
+        lines.append({"k": "jne", "t": names[0]})
+    rec = rewrite.Recorder()
+    have_fn = "functionEntries" in m.aux_data and \
+        "functionBlocks" in m.aux_data
+    functions = gtirb_functions.Function.build_functions(m) \
+        if have_fn else []
+    ctx = RewritingContext(m, functions)
+    ctx.insert_at(syms[0].referent, 0,
+                  rewrite.make_patch(isa, {"lines": lines}, 2000, rec))
+    ctx.apply()
 
 
 def permuted(case, rng):
